@@ -261,7 +261,10 @@ func checkC01(c *Ctx) {
 					c.Fail(Finding{Sig: "roundtrip-fails", Input: key, What: e.Entry + " with //line directives: " + e.Err + " (" + f.Path + ")", Replay: obj{"kind": "c01snip", "src": string(v)}})
 				} else if !bytes.Equal(e.Out, v) {
 					sig, in := "roundtrip-bytes-differ", key
-					if unindentLineDirectives(e.Out) == unindentLineDirectives(v) {
+					// (a file that also holds a comment aligned with a closing bracket shows K6 on top: both effects
+					// are taken out before the comparison, the finding stays the directive one)
+					if unindentLineDirectives(e.Out) == unindentLineDirectives(v) ||
+						unindentLineDirectives([]byte(unindentClosingComments(e.Out))) == unindentLineDirectives([]byte(unindentClosingComments(v))) {
 						// the only difference: a //line directive that stood in column 1 inside indented code is indented
 						sig, in = "line-directive-reindented", "line-directives|"+key
 					}
